@@ -10,6 +10,7 @@ import (
 	"os"
 	"strconv"
 	"strings"
+	"sync/atomic"
 	"time"
 )
 
@@ -194,19 +195,40 @@ func Dial(addr string) (*Conn, error) {
 
 // DialFrom dials with a chosen local source address (e.g. 127.0.0.5).
 func DialFrom(local, addr string) (*Conn, error) {
-	d := net.Dialer{Timeout: 10 * time.Second}
-	if local != "" {
-		d.LocalAddr = &net.TCPAddr{IP: net.ParseIP(local)}
+	var last error
+	for try := 0; try < 6; try++ {
+		d := net.Dialer{Timeout: 15 * time.Second}
+		src := local
+		if src == "" && strings.HasPrefix(addr, "127.") {
+			src = NextLoopAddr() // spread the client side over many source addresses (TIME_WAIT)
+		}
+		if src != "" {
+			d.LocalAddr = &net.TCPAddr{IP: net.ParseIP(src)}
+		}
+		c, err := d.Dial("tcp", addr)
+		if err == nil {
+			return &Conn{C: c, Timeout: ReplyTimeout()}, nil
+		}
+		last = err
+		if local != "" && !strings.Contains(err.Error(), "assign requested address") && !strings.Contains(err.Error(), "in use") {
+			break
+		}
+		time.Sleep(50 * time.Millisecond)
 	}
-	c, err := d.Dial("tcp", addr)
-	if err != nil {
-		return nil, err
-	}
-	return &Conn{C: c, Timeout: ReplyTimeout()}, nil
+	return nil, &InfraError{Err: last}
 }
 
+var slowRetry atomic.Bool
+
+// SlowRetry doubles the reply window for the confirming re-run of a case that timed out.
+func SlowRetry(on bool) { slowRetry.Store(on) }
+
 func ReplyTimeout() time.Duration {
-	return time.Duration(EnvInt("VERIF_REPLY_TIMEOUT_MS", 5000)) * time.Millisecond
+	d := time.Duration(EnvInt("VERIF_REPLY_TIMEOUT_MS", 10000)) * time.Millisecond
+	if slowRetry.Load() {
+		d *= 2
+	}
+	return d
 }
 
 func (c *Conn) Send(b []byte) error {
